@@ -38,22 +38,24 @@ type poolInfo struct {
 
 // asmReplayer replays AsmCases on the real code.
 type asmReplayer struct {
-	c        *Ctx
-	u        *Universe
-	pool     *inprocPool
-	root     string // sandbox CRS root shared by cases that need no files
-	budget   int64  // maximum number of cases to replay (sampling), 0 = all
-	cliEvery int64  // every n-th replayed case additionally goes through the CLI
-	seen     int64
-	replayed int64
-	cliRuns  int64
-	mism     int64
-	sbSeq    int64
-	wg       sync.WaitGroup
-	ch       chan AsmCase
-	errMu    sync.Mutex
-	err      error
-	keepMod  uint64 // keep a case when hash%keepMod==0 (1 = all)
+	c           *Ctx
+	u           *Universe
+	pool        *inprocPool
+	root        string // sandbox CRS root shared by cases that need no files
+	budget      int64  // maximum number of cases to replay (sampling), 0 = all
+	cliEvery    int64  // every n-th replayed case additionally goes through the CLI
+	seen        int64
+	replayed    int64
+	cliRuns     int64
+	mism        int64
+	sbSeq       int64
+	wg          sync.WaitGroup
+	ch          chan AsmCase
+	errMu       sync.Mutex
+	err         error
+	keepMod     uint64 // keep a case when hash%keepMod==0 (1 = all)
+	sharedFiles map[string][]string
+	nontriv     func(cs *AsmCase) bool
 }
 
 func (c *Ctx) newAsmReplayer(keepMod uint64, cliEvery int64) (*asmReplayer, error) {
@@ -101,7 +103,8 @@ func caseHash(lines []string, seed int64) uint64 {
 func (r *asmReplayer) onCase(raw []byte) error {
 	if strings.HasPrefix(string(raw), `{"poolinfo"`) {
 		var pi struct {
-			P poolInfo `json:"poolinfo"`
+			P     poolInfo            `json:"poolinfo"`
+			Files map[string][]string `json:"files"`
 		}
 		if err := mustJSON(raw, &pi); err != nil {
 			return err
@@ -120,6 +123,17 @@ func (r *asmReplayer) onCase(raw []byte) error {
 			}
 		}
 		r.c.Cov["pool_entries_cross_checked"] = len(pi.P.Pool)
+		if len(pi.Files) > 0 {
+			// the file set shared by all cases of this model (never written by generate)
+			t := Tree{}
+			for p, ls := range pi.Files {
+				t["regex-assembly/"+p] = strings.Join(ls, "\n") + "\n"
+			}
+			if err := writeTree(r.root, t); err != nil {
+				return err
+			}
+			r.sharedFiles = pi.Files
+		}
 		return nil
 	}
 	var cs AsmCase
@@ -213,12 +227,15 @@ func lastLine(s string) string {
 
 // judge compares an observation with the case's expectation; "" = conforms.
 func (r *asmReplayer) judge(cs *AsmCase, o asmObs) string {
-	if cs.Expect == "error" {
+	if strings.HasPrefix(cs.Expect, "unspecified") {
+		return "" // the specification leaves the outcome open
+	}
+	if strings.HasPrefix(cs.Expect, "error") {
 		if o.Fail == "" {
-			return fmt.Sprintf("expected a failure, got regex %q", o.Out)
+			return fmt.Sprintf("expected a failure (%s), got regex %q", cs.Expect, o.Out)
 		}
 		if o.Out != "" {
-			return fmt.Sprintf("failure, but a regex was printed: %q", o.Out)
+			return fmt.Sprintf("failure (%s), but a regex was printed: %q", cs.Expect, o.Out)
 		}
 		return ""
 	}
@@ -226,12 +243,6 @@ func (r *asmReplayer) judge(cs *AsmCase, o asmObs) string {
 		return "well-formed program does not compile: " + o.Fail
 	}
 	want := setOf(cs.Lang)
-	if o.Out == "" {
-		// nothing printed: the empty regex
-		if len(want) == 0 {
-			return ""
-		}
-	}
 	got, err := r.u.langOfRegex(o.Out)
 	if err != nil {
 		return fmt.Sprintf("output %q is not an RE2 expression: %v", o.Out, err)
@@ -243,10 +254,52 @@ func (r *asmReplayer) judge(cs *AsmCase, o asmObs) string {
 	return ""
 }
 
+// observe runs one program, in-process when possible, through the CLI otherwise.
+func (r *asmReplayer) observe(root, text string, forceCLI bool) (asmObs, bool, error) {
+	if !forceCLI {
+		rep, err := r.pool.run(root, text)
+		if err != nil {
+			return asmObs{}, false, err
+		}
+		if !rep.Died && rep.Panic == "" {
+			o := asmObs{Out: rep.Out, Fail: rep.Err}
+			if o.Fail != "" {
+				o.Out = ""
+			}
+			return o, false, nil
+		}
+		// the code under test terminated the process or panicked: only the CLI tells how
+	}
+	return r.viaCLI(root, text), true, nil
+}
+
+// verdictFor evaluates a case completely with the given way of observing.
+func (r *asmReplayer) verdictFor(cs *AsmCase, root string, forceCLI bool) (string, asmObs, error) {
+	obs, _, err := r.observe(root, cs.text(), forceCLI)
+	if err != nil {
+		return "", obs, err
+	}
+	v := r.judge(cs, obs)
+	if v == "" && len(cs.Same) > 0 && obs.Fail == "" {
+		o2, _, err := r.observe(root, strings.Join(cs.Same, "\n")+"\n", forceCLI)
+		if err != nil {
+			return "", obs, err
+		}
+		if o2.Out != obs.Out || o2.Fail != "" {
+			v = fmt.Sprintf("the program and its hand-inlined form %q must compile identically: %q vs %q %s", cs.Same, obs.Out, o2.Out, o2.Fail)
+		}
+	}
+	return v, obs, nil
+}
+
 func (r *asmReplayer) replay(cs AsmCase) error {
 	n := atomic.AddInt64(&r.replayed, 1)
 	r.c.countEval(1)
-	if nontrivialProgram(&cs) {
+	nt := nontrivialProgram
+	if r.nontriv != nil {
+		nt = r.nontriv
+	}
+	if nt(&cs) {
 		r.c.markNontrivial(hashOf(cs.Lines))
 	}
 	root, done, err := r.prepare(&cs)
@@ -254,50 +307,38 @@ func (r *asmReplayer) replay(cs AsmCase) error {
 		return err
 	}
 	defer done()
-	text := cs.text()
-	var obs asmObs
-	useCLI := r.cliEvery > 0 && n%r.cliEvery == 0
-	rep, err := r.pool.run(root, text)
+	verdict, obs, err := r.verdictFor(&cs, root, false)
 	if err != nil {
 		return err
 	}
-	if rep.Died || rep.Panic != "" {
-		useCLI = true // the code under test terminated or panicked: only the CLI tells how
-	} else {
-		obs = asmObs{Out: rep.Out, Fail: rep.Err}
-		if obs.Fail != "" {
-			obs.Out = ""
-		}
-	}
 	if n <= 3 {
-		r.c.addSample(map[string]any{"program": cs.Lines, "files": cs.Files, "flags": cs.Flags, "expected_language": cs.Lang, "real_output": obs.Out})
+		r.c.addSample(map[string]any{"program": cs.Lines, "flags": cs.Flags, "expect": cs.Expect, "expected_language": cs.Lang,
+			"hand_inlined": cs.Same, "real_output": obs.Out, "real_failure": obs.Fail})
 	}
-	verdict := ""
-	if !(rep.Died || rep.Panic != "") {
-		verdict = r.judge(&cs, obs)
-	}
-	if useCLI || verdict != "" {
-		// the CLI is the reference observation
-		cobs := r.viaCLI(root, text)
-		if verdict == "" && !(rep.Died || rep.Panic != "") && cobs.Out != obs.Out && cobs.Fail == "" {
-			verdict = fmt.Sprintf("CLI output %q differs from the library result %q", cobs.Out, obs.Out)
+	if verdict != "" || (r.cliEvery > 0 && n%r.cliEvery == 0) {
+		// the CLI binary is the reference observation
+		cv, cobs, err := r.verdictFor(&cs, root, true)
+		if err != nil {
+			return err
 		}
-		cv := r.judge(&cs, cobs)
-		if cv == "" && verdict != "" && !strings.HasPrefix(verdict, "CLI output") {
-			// not reproduced by a fresh process: not a verdict about this property
-			return fmt.Errorf("disagreement seen in-process was not reproduced by the CLI: %s; program %q", verdict, cs.Lines)
+		if verdict != "" && cv == "" {
+			// the behaviour may depend on the process (hash-map iteration order):
+			// the property quantifies over all executions, so keep trying fresh processes
+			for try := 0; try < 40 && cv == ""; try++ {
+				cv, cobs, err = r.verdictFor(&cs, root, true)
+				if err != nil {
+					return err
+				}
+			}
+			if cv == "" {
+				return fmt.Errorf("disagreement seen in-process was not reproduced by 41 CLI runs: %s; program %q", verdict, cs.Lines)
+			}
+			cv = "(in some executions only) " + cv
 		}
-		if cv != "" {
-			verdict = cv
-			obs = cobs
+		if verdict == "" && cv == "" && cobs.Out != obs.Out {
+			cv = fmt.Sprintf("CLI output %q differs from the library result %q", cobs.Out, obs.Out)
 		}
-	}
-	if cs.Same != nil && verdict == "" {
-		o2 := r.viaCLI(root, strings.Join(cs.Same, "\n")+"\n")
-		o1 := r.viaCLI(root, text)
-		if o1.Out != o2.Out || (o1.Fail == "") != (o2.Fail == "") {
-			verdict = fmt.Sprintf("programs that must compile identically differ: %q vs %q", o1.Out, o2.Out)
-		}
+		verdict, obs = cv, cobs
 	}
 	if verdict == "" {
 		return nil
@@ -306,15 +347,22 @@ func (r *asmReplayer) replay(cs AsmCase) error {
 	if key := r.knownSignature(&cs, obs); key != "" && r.c.knownFinding(key, strings.Join(cs.Lines, " / ")) {
 		return nil
 	}
-	r.c.violation("assembly-language", map[string]any{"program": cs.Lines, "files": cs.Files, "config": cs.Config, "flags": cs.Flags,
-		"expected_language": cs.Lang, "observed": obs, "why": verdict, "spec_text": cs.ITxt, "expect": cs.Expect})
+	r.c.violation("assembly", map[string]any{"program": cs.Lines, "files": r.filesOf(&cs), "config": cs.Config, "flags": cs.Flags,
+		"expected_language": cs.Lang, "observed": obs, "why": verdict, "spec_text": cs.ITxt, "expect": cs.Expect, "hand_inlined": cs.Same})
 	return nil
+}
+
+func (r *asmReplayer) filesOf(cs *AsmCase) map[string][]string {
+	if len(cs.Files) > 0 {
+		return cs.Files
+	}
+	return r.sharedFiles
 }
 
 // knownSignature recognises the observational signatures of the listed known
 // findings (see DESIGN.md section 5); "" when none applies.
 func (r *asmReplayer) knownSignature(cs *AsmCase, o asmObs) string {
-	if o.Fail != "" || cs.Expect == "error" {
+	if o.Fail != "" || strings.HasPrefix(cs.Expect, "error") {
 		return ""
 	}
 	// "dotall-flag-group-stripped": rassemble merged alternatives into (?s:.), the
